@@ -9,6 +9,7 @@ import (
 	"fmt"
 	"os"
 	"strconv"
+	"strings"
 	"sync"
 	"time"
 
@@ -24,16 +25,28 @@ import (
 const MaxVer = 1000000
 
 type Cfg struct {
-	Mem      string `json:"mem"`      // skiplist | art
-	Vlog     bool   `json:"vlog"`     // store values out of line
-	Buckets  int    `json:"buckets"`  // value-log buckets
-	VlogSize int    `json:"vlogsize"` // value-log file size (bytes); small => rotation
-	ValLen   int    `json:"vallen"`   // default expanded value length
-	Sync     bool   `json:"sync"`
-	Detect   bool   `json:"detect"` // conflict detection
-	MemSize  int    `json:"memsize"` // memtable size in bytes (default 8 MiB)
-	Hot      int    `json:"hot"`     // > 0: that many hot value-log buckets, a key turns hot after 2 writes
+	Mem         string `json:"mem"`      // skiplist | art
+	Vlog        bool   `json:"vlog"`     // store values out of line
+	Buckets     int    `json:"buckets"`  // value-log buckets
+	VlogSize    int    `json:"vlogsize"` // value-log file size (bytes); small => rotation
+	ValLen      int    `json:"vallen"`   // default expanded value length
+	Sync        bool   `json:"sync"`
+	Detect      bool   `json:"detect"`       // conflict detection
+	MemSize     int    `json:"memsize"`      // memtable size in bytes (default 8 MiB)
+	Hot         int    `json:"hot"`          // > 0: that many hot value-log buckets, a key turns hot after 2 writes
+	BatchWaitUs int    `json:"batchwait_us"` // > 0: commit-batch coalescing window (WriteBatchWait) in microseconds
 }
+
+// Fault arms a one-shot injected I/O error for the duration of one write operation: the Nth (default
+// first) file operation Fop on a path ending in Suffix fails with ErrInjected.
+type Fault struct {
+	Fop    string `json:"fop"`    // vfs.Op name: open_file, file_write, file_sync, file_truncate, ...
+	Suffix string `json:"suffix"` // path suffix, e.g. ".vlog", ".wal"
+	Nth    int    `json:"nth"`
+}
+
+// ErrInjected is the error returned by an injected I/O fault.
+var ErrInjected = errors.New("verif: injected I/O fault")
 
 type KV struct {
 	K string `json:"k"`
@@ -41,17 +54,19 @@ type KV struct {
 }
 
 type Op struct {
-	W     []KV    `json:"w,omitempty"` // ParSet: writes issued concurrently (distinct keys)
-	Op    string  `json:"op"`
-	CF    string  `json:"cf,omitempty"`
-	K     string  `json:"k,omitempty"`
-	V     string  `json:"v,omitempty"`
-	Ver   int     `json:"ver,omitempty"`
-	Len   int     `json:"len,omitempty"`
-	Kind  string  `json:"kind,omitempty"`
-	Level int     `json:"level,omitempty"`
-	Base  int     `json:"base,omitempty"`
-	Ratio float64 `json:"ratio,omitempty"`
+	W       []KV    `json:"w,omitempty"` // ParSet: writes issued concurrently (distinct keys)
+	Op      string  `json:"op"`
+	CF      string  `json:"cf,omitempty"`
+	K       string  `json:"k,omitempty"`
+	V       string  `json:"v,omitempty"`
+	Ver     int     `json:"ver,omitempty"`
+	Len     int     `json:"len,omitempty"`
+	Kind    string  `json:"kind,omitempty"`
+	Level   int     `json:"level,omitempty"`
+	Base    int     `json:"base,omitempty"`
+	Ratio   float64 `json:"ratio,omitempty"`
+	Fault   *Fault  `json:"fault,omitempty"`    // Set/Del/ParSet/TSet/TDel: injected I/O error armed during the call
+	SleepMs int     `json:"sleep_ms,omitempty"` // Sleep
 }
 
 type Schedule struct {
@@ -205,6 +220,49 @@ type Runner struct {
 	SID  int
 	Sch  *Schedule
 	step int
+
+	fmu     sync.Mutex
+	armed   *Fault
+	fcount  int
+	fired   string // "<op>:<file>" of the operation that was failed, "" if none
+	Faulted bool   // some injected fault has fired in this run
+}
+
+// faultHook is the FaultFS hook: fails the armed operation once.
+func (r *Runner) faultHook(op vfs.Op, path string) error {
+	r.fmu.Lock()
+	defer r.fmu.Unlock()
+	f := r.armed
+	if f == nil || string(op) != f.Fop || !strings.HasSuffix(path, f.Suffix) {
+		return nil
+	}
+	r.fcount++
+	if r.fcount < max(f.Nth, 1) {
+		return nil
+	}
+	r.armed = nil
+	r.fired = string(op) + ":" + path[strings.LastIndex(path, "/")+1:]
+	r.Faulted = true
+	return ErrInjected
+}
+
+// arm installs f (nil: nothing) and returns a function that disarms and reports what fired.
+func (r *Runner) arm(f *Fault) func() any {
+	if f == nil {
+		return func() any { return nil }
+	}
+	if r.FS == nil {
+		vt.Fatal("fault operation in a schedule that runs without FaultFS")
+	}
+	r.fmu.Lock()
+	r.armed, r.fcount, r.fired = f, 0, ""
+	r.fmu.Unlock()
+	return func() any {
+		r.fmu.Lock()
+		defer r.fmu.Unlock()
+		r.armed = nil
+		return map[string]any{"fop": f.Fop, "suffix": f.Suffix, "fired": r.fired}
+	}
 }
 
 // Opts returns the options the runner opens the DB with.
@@ -244,6 +302,9 @@ func (r *Runner) opts() *NoKV.Options {
 		o.HotRingEnabled = true
 		o.ValueLogHotBucketCount = r.Cfg.Hot
 		o.ValueLogHotKeyThreshold = 2
+	}
+	if r.Cfg.BatchWaitUs > 0 {
+		o.WriteBatchWait = time.Duration(r.Cfg.BatchWaitUs) * time.Microsecond
 	}
 	o.SyncWrites = r.Cfg.Sync
 	o.DetectConflicts = r.Cfg.Detect
@@ -417,30 +478,38 @@ func (r *Runner) Exec(op Op) {
 	}
 	switch op.Op {
 	case "Set":
+		disarm := r.arm(op.Fault)
 		err := r.DB.SetCF(cf, []byte(op.K), Expand(op.V, r.valLen(op)))
-		r.emit(vt.Ev{"e": "Set", "cf": cfs, "k": op.K, "v": op.V, "ok": err == nil, "err": errStr(err)})
+		r.emit(vt.Ev{"e": "Set", "cf": cfs, "k": op.K, "v": op.V, "ok": err == nil, "err": errStr(err), "fault": disarm()})
 	case "Del":
+		disarm := r.arm(op.Fault)
 		err := r.DB.DelCF(cf, []byte(op.K))
-		r.emit(vt.Ev{"e": "Del", "cf": cfs, "k": op.K, "ok": err == nil, "err": errStr(err)})
+		r.emit(vt.Ev{"e": "Del", "cf": cfs, "k": op.K, "ok": err == nil, "err": errStr(err), "fault": disarm()})
+	case "Sleep":
+		time.Sleep(time.Duration(op.SleepMs) * time.Millisecond)
+		r.maint("Sleep", nil)
 	case "Get":
 		r.get(op.CF, op.K)
 	case "TSet", "TDel":
 		// the same write through the transactional API (one transaction per write)
+		disarm := r.arm(op.Fault)
 		err := r.DB.Update(func(txn *NoKV.Txn) error {
 			if op.Op == "TDel" {
 				return txn.Delete([]byte(op.K))
 			}
 			return txn.Set([]byte(op.K), Expand(op.V, r.valLen(op)))
 		})
+		fl := disarm()
 		if op.Op == "TDel" {
-			r.emit(vt.Ev{"e": "Del", "cf": cfs, "k": op.K, "ok": err == nil, "err": errStr(err)})
+			r.emit(vt.Ev{"e": "Del", "cf": cfs, "k": op.K, "ok": err == nil, "err": errStr(err), "fault": fl})
 		} else {
-			r.emit(vt.Ev{"e": "Set", "cf": cfs, "k": op.K, "v": op.V, "ok": err == nil, "err": errStr(err)})
+			r.emit(vt.Ev{"e": "Set", "cf": cfs, "k": op.K, "v": op.V, "ok": err == nil, "err": errStr(err), "fault": fl})
 		}
 	case "ParSet":
 		// several plain writes to distinct keys issued at the same time so that the commit worker
 		// coalesces them into one batch; distinct keys commute, so events are emitted afterwards
 		errs := make([]error, len(op.W))
+		disarm := r.arm(op.Fault)
 		var wg sync.WaitGroup
 		start := make(chan struct{})
 		for i := range op.W {
@@ -453,8 +522,9 @@ func (r *Runner) Exec(op Op) {
 		}
 		close(start)
 		wg.Wait()
+		fl := disarm()
 		for i, w := range op.W {
-			r.emit(vt.Ev{"e": "Set", "cf": cfs, "k": w.K, "v": w.V, "ok": errs[i] == nil, "err": errStr(errs[i])})
+			r.emit(vt.Ev{"e": "Set", "cf": cfs, "k": w.K, "v": w.V, "ok": errs[i] == nil, "err": errStr(errs[i]), "fault": fl, "par": len(op.W)})
 		}
 	case "SetV":
 		err := r.DB.SetVersionedEntry(cf, []byte(op.K), Ver(op.Ver), Expand(op.V, r.valLen(op)), 0)
@@ -523,6 +593,27 @@ func (r *Runner) Exec(op Op) {
 	}
 }
 
+// step1 executes one operation and the read-back. Once an injected I/O fault has fired, a panic of the
+// engine (fail-stop, e.g. rotating the WAL after a failed WAL write) is recorded and ends the schedule;
+// without a fault a panic still kills the driver.
+func (r *Runner) step1(op Op, readAll bool) (ok bool) {
+	defer func() {
+		if p := recover(); p != nil {
+			if !r.Faulted {
+				panic(p)
+			}
+			r.emit(vt.Ev{"e": "Panic", "msg": fmt.Sprint(p)})
+			setGated(false)
+			ok = false
+		}
+	}()
+	r.Exec(op)
+	if readAll && r.DB != nil {
+		r.readAll()
+	}
+	return true
+}
+
 // RunSchedule executes a whole schedule in a fresh directory.
 func RunSchedule(base string, s *Schedule, w *vt.Writer) {
 	dir, err := os.MkdirTemp(base, "db-")
@@ -531,6 +622,12 @@ func RunSchedule(base string, s *Schedule, w *vt.Writer) {
 	}
 	defer os.RemoveAll(dir)
 	r := &Runner{Dir: dir, Cfg: s.Cfg, W: w, SID: s.ID, Sch: s}
+	for _, op := range s.Ops {
+		if op.Fault != nil { // only schedules with fault operations run on the fault-injecting filesystem
+			r.FS = vfs.NewFaultFS(vfs.OSFS{}, r.faultHook)
+			break
+		}
+	}
 	if !r.Open() {
 		return
 	}
@@ -538,9 +635,8 @@ func RunSchedule(base string, s *Schedule, w *vt.Writer) {
 		if r.DB == nil {
 			break
 		}
-		r.Exec(op)
-		if s.ReadAll && r.DB != nil {
-			r.readAll()
+		if !r.step1(op, s.ReadAll) {
+			return // the engine stopped itself after an injected fault: the handle is abandoned
 		}
 	}
 	if r.DB != nil {
